@@ -141,6 +141,10 @@ public:
   }
 
   std::string qname(const NamedDecl *D) {
+    if (const auto *TD = dyn_cast<TagDecl>(D))
+      if (!TD->getIdentifier())
+        if (const TypedefNameDecl *TN = TD->getTypedefNameForAnonDecl())
+          return TN->getNameAsString();
     std::string s;
     llvm::raw_string_ostream os(s);
     D->getNameForDiagnostic(os, PP, true);
